@@ -263,7 +263,7 @@ def roundtrip(ctx, obj):
     return copy.deepcopy(obj)
 
 
-def buffer_program(cls_name, n_ops):
+def buffer_program(cls_name, n_ops, cap=2):
     from rl_blox.blox import replay_buffer as rb
     sub = cls_name.startswith("Subtrajectory")
 
@@ -282,7 +282,8 @@ def buffer_program(cls_name, n_ops):
 
     def prog(ctx):
         with overlay(rb, np=NpShim(), jnp=JnpShim()):
-            buf = getattr(rb, cls_name)(3, **({"horizon": 1} if sub else {}))
+            # capacity 2 for the plain buffers: the operations before the save then reach wrap-around (cursor != length % N)
+            buf = getattr(rb, cls_name)(3 if sub else cap, **({"horizon": 1} if sub else {}))
             n = int(sym_int("n_ops", 1, n_ops))
             last_sampled = False
             for i in range(n):
